@@ -8,6 +8,7 @@ package sftp
 import (
 	"errors"
 	"fmt"
+	"io"
 	"os"
 	"strings"
 
@@ -292,4 +293,185 @@ func init() {
 		return []reg.Job{{Part: "C01/reorder", Build: "instr", Args: map[string]string{"bound": "2"}, Shards: 16, BudgetS: 100, Label: "reply reordering, 3 chunks, db2"}}
 	}
 	c01Prop.Rule += "; scheduled half: ReadAt/Read/WriteTo/WriteAt/Write/ReadFrom/ReadFromWithConcurrency of 3-4 chunks (P=2, K in {2,3}) against the permuting reference peer, every reply order and every schedule with <= d deviations, same byte-slice oracle"
+}
+
+// gatedSource is a reader for ReadFrom whose k-th Read blocks until a harness thread opens the gate
+// (a slow source: a pipe, a network body).
+type gatedSource struct {
+	data  []byte
+	pos   int
+	reads int
+	gate  int // the Read call (1-based) that waits for the gate
+	open  bool
+}
+
+func (g *gatedSource) Read(b []byte) (int, error) {
+	g.reads++
+	if g.reads == g.gate {
+		vsched.Env("source.gate", g, false, func() bool { return g.open })
+	}
+	if g.pos >= len(g.data) {
+		return 0, io.EOF
+	}
+	n := copy(b, g.data[g.pos:])
+	g.pos += n
+	return n, nil
+}
+
+// c12FeederScenario: an upload whose every write fails while the source is slow, followed by Close.
+// Whatever the transfer's goroutines still do afterwards, nothing carrying the handle may reach the
+// wire behind the CLOSE.
+func c12FeederScenario(gateAt int, api string, slowest bool) explore.Scenario {
+	return func() (func(), func(*vsched.Exec) explore.Verdict) {
+		var env *cliEnv
+		var n int64
+		var rfErr, closeErr, finalErr error
+		body := func() {
+			env = newCliEnv(func(e *cliEnv) {
+				e.peer.Permute = true
+				f := &pfile{}
+				e.peer.files["/f"] = f
+				e.peer.handles["h1"] = f
+				for off := 0; off < 12; off += 2 {
+					e.peer.FailOff[uint64(off)] = fmt.Sprintf("disk full@%d", off)
+				}
+			}, MaxPacketUnchecked(2), MaxConcurrentRequestsPerFile(2), UseConcurrentWrites(true))
+			if env.err != nil {
+				return
+			}
+			f := &File{c: env.c, path: "/f", handle: "h1"}
+			src := &gatedSource{data: pattern(8, 'a'), gate: gateAt}
+			var g vgroup
+			g.Go("gate-opener", func() {
+				if slowest {
+					// the slowest possible source: it delivers only when nothing else can move
+					vsched.AwaitQuiescence("source.open(idle)")
+				} else {
+					vsched.Env("source.open", src, false, nil)
+				}
+				src.open = true
+			})
+			if api == "ReadFrom" {
+				n, rfErr = f.ReadFrom(lenSource{src})
+			} else {
+				n, rfErr = f.ReadFromWithConcurrency(src, 2)
+			}
+			closeErr = f.Close()
+			g.Wait()
+			finalErr = env.c.Close()
+		}
+		judge := func(e *vsched.Exec) explore.Verdict {
+			v := explore.Verdict{}
+			if e.Deadlock {
+				v.Outcome = "DEADLOCK"
+				return v
+			}
+			if env.err != nil {
+				v.Bad, v.Key = "NewClientPipe: "+env.err.Error(), "c12-newclient"
+				return v
+			}
+			v.Outcome = fmt.Sprintf("%s n=%d err=%v close=%v wire=[%s]", api, n, rfErr != nil, closeErr, env.peer.wireString())
+			v.Sample = map[string]any{"api": api, "gate_at_read": gateAt, "outcome": v.Outcome}
+			fail := func(k, f string, a ...any) explore.Verdict {
+				v.Bad = fmt.Sprintf("%s from a slow source (Read %d waits), every write refused, then Close: ", api, gateAt) + fmt.Sprintf(f, a...) + "\n  " + v.Outcome
+				v.Key = "c12-feeder-" + k + ":" + api
+				return v
+			}
+			if len(env.peer.Bad) > 0 {
+				return fail("peer", "peer observed protocol violation: %v", env.peer.Bad)
+			}
+			if finalErr != nil || closeErr != nil {
+				return fail("close", "Close returned %v / %v", closeErr, finalErr)
+			}
+			if rfErr == nil {
+				return fail("nil-error", "returned a nil error although every write was refused")
+			}
+			closedAt := -1
+			for i, r := range env.peer.Wire {
+				if r.typ == sshFxpClose {
+					if closedAt >= 0 {
+						return fail("close-count", "two CLOSE requests on the wire")
+					}
+					closedAt = i
+					continue
+				}
+				if r.typ == sshFxpWrite && closedAt >= 0 {
+					return fail("use-after-close", "request %s was written to the wire after the CLOSE of its handle", r)
+				}
+				if r.typ == sshFxpWrite && r.handle != "h1" {
+					return fail("bad-handle", "request %s carries handle %q", r, r.handle)
+				}
+			}
+			if closedAt < 0 {
+				return fail("close-count", "no CLOSE on the wire")
+			}
+			return v
+		}
+		return body, judge
+	}
+}
+
+// lenSource gives a gatedSource a Len method so that ReadFrom takes its concurrent path.
+type lenSource struct{ *gatedSource }
+
+func (l lenSource) Len() int { return len(l.data) - l.pos }
+
+func init() {
+	reg.Part("C12/feeder", func(c *reg.Ctx) *reg.Result {
+		total := reg.NewResult(c.Part)
+		minDone := 1 << 30
+		i := 0
+		for _, api := range []string{"ReadFromC", "ReadFrom"} {
+			for _, gate := range []int{2, 3, -2, -3} {
+				if c.Expired() {
+					total.Exhaustive = false
+					break
+				}
+				slowest := gate < 0
+				if slowest {
+					gate = -gate
+				}
+				r := explore.Run(explore.Config{Prop: "C12", Strategy: "db", Bound: c.ArgInt("bound", 2), Ctx: c, Label: c.Part}, c12FeederScenario(gate, api, slowest))
+				total.Evaluations += r.Evaluations
+				total.States += r.States
+				total.Transitions += r.Transitions
+				total.Distinct += r.Distinct
+				for k, v := range r.Outcomes {
+					total.Outcomes[fmt.Sprintf("s%d:%s", i, k)] += v
+				}
+				for _, sm := range r.Samples {
+					total.Sample(sm)
+				}
+				for _, v := range r.Violations {
+					total.Violate("C12", v.Key, v.Msg, map[string]any{"api": api, "gate": gate, "schedule": v.Replay}, v.Trace)
+				}
+				if !r.Exhaustive {
+					total.Exhaustive = false
+				}
+				if r.EngineError != "" {
+					total.EngineError = r.EngineError
+				}
+				if d, ok := r.Notes["db_completed"].(int); ok && d < minDone {
+					minDone = d
+				}
+				i++
+			}
+		}
+		if minDone == 1<<30 {
+			minDone = -1
+		}
+		total.Notes["db_completed"] = minDone
+		total.Notes["db_target"] = c.ArgInt("bound", 2)
+		return total
+	})
+	prev := c12ExtraJobs
+	c12ExtraJobs = func(tier string) []reg.Job {
+		js := prev(tier)
+		b, budget := "2", 100
+		if tier == "thorough" {
+			b, budget = "3", 600
+		}
+		return append(js, reg.Job{Part: "C12/feeder", Build: "instr", Args: map[string]string{"bound": b}, Shards: 16, BudgetS: budget,
+			Label: "failed concurrent upload from a slow source, then Close, db" + b})
+	}
 }
